@@ -2,6 +2,7 @@ package comm_test
 
 import (
 	"context"
+	"errors"
 	"fmt"
 	"slices"
 	"testing"
@@ -211,10 +212,48 @@ func c17uCoherent(ids []hotstuff.ID, bf int, ans map[hotstuff.ID]c17uAns) (fp, w
 	return "", ""
 }
 
+// c17uLog records what one replica's Kauri module asked its sender to do.
+type c17uLog struct {
+	subCalls  [][]hotstuff.ID // ids handed to Sub, in call order
+	emptySubs int
+	proposes  [][]hotstuff.ID // recipients of every Propose on a sub-sender
+	contribs  []testutil.ContributionMsg
+}
+
+// c17uSender is the stub core.KauriSender. Like the real network.GorumsSender (gorums rejects a
+// configuration without node ids) its Sub refuses an empty id list.
+type c17uSender struct {
+	recipients []hotstuff.ID // nil: the top-level sender
+	log        *c17uLog
+}
+
+func (s *c17uSender) NewView(hotstuff.ID, hotstuff.SyncInfo) error { return nil }
+func (s *c17uSender) Vote(hotstuff.ID, hotstuff.PartialCert) error  { return nil }
+func (s *c17uSender) Timeout(hotstuff.TimeoutMsg)                   {}
+func (s *c17uSender) RequestBlock(context.Context, hotstuff.Hash) (*hotstuff.Block, bool) {
+	return nil, false
+}
+func (s *c17uSender) Propose(*hotstuff.ProposeMsg) {
+	s.log.proposes = append(s.log.proposes, slices.Clone(s.recipients))
+}
+func (s *c17uSender) Sub(ids []hotstuff.ID) (core.Sender, error) {
+	s.log.subCalls = append(s.log.subCalls, slices.Clone(ids))
+	if len(ids) == 0 {
+		s.log.emptySubs++
+		return nil, errors.New("config: missing required node IDs")
+	}
+	return &c17uSender{recipients: ids, log: s.log}, nil
+}
+func (s *c17uSender) SendContributionToParent(view hotstuff.View, qc hotstuff.QuorumSignature) {
+	s.log.contribs = append(s.log.contribs, testutil.ContributionMsg{View: view, QC: qc})
+}
+
+var _ core.KauriSender = (*c17uSender)(nil)
+
 type c17uNode struct {
-	ess    *testutil.Essentials
-	kauri  *comm.Kauri
-	sender *testutil.MockSender
+	ess   *testutil.Essentials
+	kauri *comm.Kauri
+	log   *c17uLog
 }
 
 func c17uDrain(n *c17uNode) {
@@ -222,50 +261,109 @@ func c17uDrain(n *c17uNode) {
 	}
 }
 
-// c17uRound runs one proposal through the Kauri modules: top-down dissemination in position
-// order, then the contributions bottom-up. The layout used to route messages is the ORIGINAL
-// position list (what the network would do), never what the used Tree instances say.
-// Returns the number of contributions delivered to inner replicas.
-func c17uRound(t *testing.T, ids []hotstuff.ID, bf int, nodes map[hotstuff.ID]*c17uNode) (delivered int, err error) {
+type c17uRoundResult struct {
+	delivered  int
+	fails      [][2]string                  // (fingerprint, what) of the sending oracles
+	spoiled    bool                         // an aggregation timer fired before the children's contributions were in
+	stalled    bool                         // an inner replica produced no contribution within 5s
+	forwarded  map[hotstuff.ID][]hotstuff.ID // ids the replica proposed to ([] = none)
+	atOnce     map[hotstuff.ID]bool         // the replica sent its contribution while handling the proposal
+	rootVotes  []hotstuff.ID                // participants of the root's final aggregate
+	rootSent   bool
+	emptySubs  int
+	childlessH int // childless replicas above the last level (incomplete last level)
+}
+
+// c17uRound runs one proposal through the Kauri modules. Replicas handle the proposal in reverse
+// position order, each followed at once by the contributions of its children (routed by the
+// ORIGINAL position list, never by what the used Tree instances say) and by its own aggregation
+// timer, so that every timer fires after the contributions it waits for. The oracles tie what
+// each module SENDS to the model tree:
+//   (a) the proposal is forwarded (Sub + Propose) to exactly the replica's children, and Sub is
+//       never called with an empty list;
+//   (b) a replica sends its own contribution while handling the proposal iff it has no children;
+//   (c) the root's final aggregate carries the vote of every replica.
+func c17uRound(t *testing.T, ids []hotstuff.ID, bf int, nodes map[hotstuff.ID]*c17uNode, heights map[hotstuff.ID]int) (res c17uRoundResult) {
 	n := len(ids)
-	rootN := nodes[ids[0]]
-	block := testutil.CreateBlock(t, rootN.ess.Authority())
+	res.forwarded = map[hotstuff.ID][]hotstuff.ID{}
+	res.atOnce = map[hotstuff.ID]bool{}
+	fail := func(fp, what string) { res.fails = append(res.fails, [2]string{fp, what}) }
+	block := testutil.CreateBlock(t, nodes[ids[0]].ess.Authority())
 	proposal := &hotstuff.ProposeMsg{ID: ids[0], Block: block}
 	for _, x := range ids {
 		nodes[x].ess.Blockchain().Store(block)
 	}
-	for i, x := range ids {
-		nd := nodes[x]
+	final := map[hotstuff.ID]*testutil.ContributionMsg{}
+	for i := n - 1; i >= 0; i-- {
+		x, nd := ids[i], nodes[ids[i]]
+		children := ids[min(n, i*bf+1):min(n, i*bf+1+bf)]
+		if len(children) == 0 && heights[x] > 1 {
+			res.childlessH++
+		}
+		lg := nd.log
+		s0, p0, c0, e0 := len(lg.subCalls), len(lg.proposes), len(lg.contribs), lg.emptySubs
 		pc := testutil.CreatePC(t, block, nd.ess.Authority())
-		before := len(nd.sender.ContributionsSent())
+		var err error
 		if i == 0 {
 			err = nd.kauri.Disseminate(proposal, pc)
 		} else {
 			err = nd.kauri.Aggregate(proposal, pc)
 		}
-		if err != nil {
-			return delivered, fmt.Errorf("replica %d: %w", x, err)
+		subs, props, imm := lg.subCalls[s0:], lg.proposes[p0:], len(lg.contribs)-c0
+		res.emptySubs += lg.emptySubs - e0
+		var to []hotstuff.ID
+		for _, p := range props {
+			to = append(to, p...)
 		}
-		// inner replicas send their contribution when the aggregation timer (0 here) fires
-		deadline := time.Now().Add(2 * time.Second)
-		for len(nd.sender.ContributionsSent()) == before && time.Now().Before(deadline) {
+		res.forwarded[x] = to
+		res.atOnce[x] = imm > 0
+		where := fmt.Sprintf("replica %d at position %d of %v (bf %d, model children %v, ReplicaHeight %d)", x, i, ids, bf, children, heights[x])
+		switch {
+		case lg.emptySubs > e0:
+			fail("kauri.forward:sub-with-empty-id-list", where+": Sender.Sub was called with an empty id list (the real sender rejects it; the vote of this replica is not sent)")
+		case err != nil:
+			fail("kauri.forward:error", fmt.Sprintf("%s: handling the proposal failed: %v", where, err))
+		case len(children) == 0 && (len(subs) != 0 || len(props) != 0):
+			fail("kauri.forward:childless-replica-forwards", fmt.Sprintf("%s: proposal forwarded to %v", where, to))
+		case len(children) > 0 && (len(subs) != 1 || len(props) != 1 || !c17uSame(subs[0], children) || !c17uSame(to, children) || c17uDup(to)):
+			fail("kauri.forward:recipients-differ-from-children", fmt.Sprintf("%s: Sub called with %v, proposal sent to %v", where, subs, to))
+		case len(children) == 0 && imm != 1:
+			fail("kauri.vote:not-sent-at-once-by-childless-replica", fmt.Sprintf("%s: %d contributions sent while handling the proposal, expected its own vote to go to the parent at once", where, imm))
+		case len(children) > 0 && imm != 0:
+			fail("kauri.vote:sent-before-aggregation", fmt.Sprintf("%s: sent %d contribution(s) while handling the proposal, before any child answered", where, imm))
+		}
+		for _, c := range children {
+			fc := final[c]
+			if fc == nil {
+				continue
+			}
+			if len(lg.contribs) > c0 {
+				res.spoiled = true // the timer beat the delivery
+			}
+			nd.ess.EventLoop().AddEvent(&kauripb.Contribution{ID: uint32(c), View: uint64(fc.View), Signature: hotstuffpb.QuorumSignatureToProto(fc.QC)})
 			c17uDrain(nd)
-			time.Sleep(50 * time.Microsecond)
+			res.delivered++
+		}
+		if len(children) > 0 && err == nil {
+			deadline := time.Now().Add(5 * time.Second)
+			for len(lg.contribs) == c0 && time.Now().Before(deadline) {
+				c17uDrain(nd)
+				time.Sleep(100 * time.Microsecond)
+			}
+			if len(lg.contribs) == c0 {
+				res.stalled = true
+			}
+		}
+		if len(lg.contribs) > c0 {
+			last := lg.contribs[len(lg.contribs)-1]
+			final[x] = &last
 		}
 	}
-	for i := n - 1; i >= 1; i-- {
-		x := ids[i]
-		cs := nodes[x].sender.ContributionsSent()
-		if len(cs) == 0 {
-			continue
-		}
-		c := cs[len(cs)-1]
-		parent := nodes[ids[(i-1)/bf]]
-		parent.ess.EventLoop().AddEvent(&kauripb.Contribution{ID: uint32(x), View: uint64(c.View), Signature: hotstuffpb.QuorumSignatureToProto(c.QC)})
-		c17uDrain(parent)
-		delivered++
+	if fr := final[ids[0]]; fr != nil && fr.QC != nil {
+		res.rootSent = true
+		fr.QC.Participants().ForEach(func(id hotstuff.ID) { res.rootVotes = append(res.rootVotes, id) })
 	}
-	return delivered, nil
+	return res
 }
 
 func TestVerifC17(t *testing.T) {
@@ -289,48 +387,125 @@ func TestVerifC17(t *testing.T) {
 			v.Oracle(false, "tree.fresh:"+fp, what, meta) // the in-package harness reports these with more detail
 			return
 		}
-		// the instances that will be used: one per replica, own copy of the positions
-		trees := map[hotstuff.ID]*tree.Tree{}
-		nodes := map[hotstuff.ID]*c17uNode{}
-		var infos []hotstuff.ReplicaInfo
+		heights := map[hotstuff.ID]int{}
+		inner, childlessHigh := 0, 0
 		for _, x := range ids {
-			tr := tree.NewSimple(x, bf, slices.Clone(ids))
-			tr.SetTreeHeightWaitTime(0)
-			trees[x] = tr
-			ess := testutil.WireUpEssentials(t, x, crypto.NameECDSA, core.WithKauriTree(tr))
-			nodes[x] = &c17uNode{ess: ess}
-			infos = append(infos, hotstuff.ReplicaInfo{ID: x, PubKey: ess.RuntimeCfg().PrivateKey().Public()})
-		}
-		for _, x := range ids {
-			nd := nodes[x]
-			for i := range infos {
-				nd.ess.RuntimeCfg().AddReplica(&infos[i])
-			}
-			nd.sender = testutil.NewMockSender(x, ids...)
-			nd.kauri = comm.NewKauri(nd.ess.Logger(), nd.ess.EventLoop(), nd.ess.RuntimeCfg(), nd.ess.Blockchain(), nd.ess.Authority(), nd.sender)
-			nd.ess.EventLoop().AddEvent(hotstuff.ReplicaConnectedEvent{})
-			c17uDrain(nd)
-		}
-		delivered := 0
-		for r := 0; r < rounds; r++ {
-			d, err := c17uRound(t, ids, bf, nodes)
-			delivered += d
-			if err != nil {
-				v.Oracle(false, "tree.in-use:kauri-error", fmt.Sprintf("Kauri round %d failed: %v", r+1, err), meta)
-				return
-			}
-		}
-		inner := 0
-		for _, x := range ids {
+			heights[x] = fresh[x].rh
 			if len(fresh[x].children) > 0 {
 				inner++
+			} else if fresh[x].rh > 1 {
+				childlessHigh++
 			}
 		}
+		// the instances that will be used: one per replica, own copy of the positions, wired into a
+		// real Kauri module. wait = aggregation wait time of every inner replica.
+		var trees map[hotstuff.ID]*tree.Tree
+		build := func(wait time.Duration) map[hotstuff.ID]*c17uNode {
+			trees = map[hotstuff.ID]*tree.Tree{}
+			nodes := map[hotstuff.ID]*c17uNode{}
+			var infos []hotstuff.ReplicaInfo
+			for _, x := range ids {
+				tr := tree.NewSimple(x, bf, slices.Clone(ids))
+				// SetTreeHeightWaitTime(d) waits 2*(height-1)*d: give every inner replica `wait`
+				tr.SetTreeHeightWaitTime(wait / time.Duration(2*max(1, heights[x]-1)))
+				trees[x] = tr
+				ess := testutil.WireUpEssentials(t, x, crypto.NameECDSA, core.WithKauriTree(tr))
+				nodes[x] = &c17uNode{ess: ess, log: &c17uLog{}}
+				infos = append(infos, hotstuff.ReplicaInfo{ID: x, PubKey: ess.RuntimeCfg().PrivateKey().Public()})
+			}
+			for _, x := range ids {
+				nd := nodes[x]
+				for i := range infos {
+					nd.ess.RuntimeCfg().AddReplica(&infos[i])
+				}
+				nd.kauri = comm.NewKauri(nd.ess.Logger(), nd.ess.EventLoop(), nd.ess.RuntimeCfg(), nd.ess.Blockchain(), nd.ess.Authority(), &c17uSender{log: nd.log})
+				nd.ess.EventLoop().AddEvent(hotstuff.ReplicaConnectedEvent{})
+				c17uDrain(nd)
+			}
+			return nodes
+		}
+		wait := 2*time.Millisecond + time.Duration(n)*300*time.Microsecond
+		var first c17uRoundResult
+		delivered := 0
+		for attempt := 0; ; attempt++ {
+			nodes := build(wait)
+			delivered = 0
+			spoiled, stalled := false, false
+			for r := 0; r < rounds; r++ {
+				if r > 0 {
+					// let the aggregation timers of the previous round run out before the next one
+					time.Sleep(wait + time.Millisecond)
+					for _, x := range ids {
+						c17uDrain(nodes[x])
+					}
+				}
+				res := c17uRound(t, ids, bf, nodes, heights)
+				delivered += res.delivered
+				spoiled = spoiled || res.spoiled
+				stalled = stalled || res.stalled
+				if r == 0 {
+					first = res
+				} else {
+					first.fails = append(first.fails, res.fails...)
+					first.emptySubs += res.emptySubs
+					if first.rootSent && (!res.rootSent || !c17uSame(res.rootVotes, first.rootVotes)) {
+						first.rootSent, first.rootVotes = res.rootSent, res.rootVotes
+					}
+				}
+			}
+			first.spoiled, first.stalled = spoiled, stalled
+			if (!spoiled && !stalled) || attempt == 2 {
+				break
+			}
+			v.Count("inuse-timing:retry-with-longer-timers")
+			wait *= 5
+		}
+		v.CountN("kauri:sub-with-empty-id-list", first.emptySubs)
+		sendOK := true
+		for _, f := range first.fails {
+			sendOK = false
+			v.Oracle(false, f[0], f[1], meta)
+		}
+		// (c) every vote has a path up: the root's final aggregate carries every replica's vote
+		switch {
+		case first.spoiled && !first.stalled:
+			// (a slow machine, three times in a row with growing timers; a replica that never
+			// sends at all is "stalled" and is evaluated below)
+			v.Count("inuse-vote-path:not-evaluated-timers-too-early")
+		case !first.rootSent:
+			sendOK = false
+			v.Oracle(false, "kauri.vote:no-path-to-root", fmt.Sprintf("the root %d of %v (bf %d) never produced an aggregate in the round", ids[0], ids, bf), meta)
+		case !c17uSame(first.rootVotes, ids):
+			sendOK = false
+			var missing []hotstuff.ID
+			for _, x := range ids {
+				if !slices.Contains(first.rootVotes, x) {
+					missing = append(missing, x)
+				}
+			}
+			v.Oracle(false, "kauri.vote:no-path-to-root", fmt.Sprintf("positions %v, bf %d: the root's aggregate carries the votes of %v; the votes of %v did not reach the root although every replica is honest and every timer fired", ids, bf, c17uSorted(first.rootVotes), missing), meta)
+		default:
+			v.Count("inuse-vote-path:all-votes-reached-root")
+		}
+		if sendOK {
+			v.Oracle(true, "", "", nil)
+		}
+		geom, pw := 0, 1
+		for geom < n {
+			geom += pw
+			pw *= bf
+		}
+		if geom != n {
+			v.Count("inuse-shape:incomplete-last-level")
+		} else {
+			v.Count("inuse-shape:full-tree")
+		}
+		v.CountN("inuse-childless-replicas-above-last-level", childlessHigh)
 		v.CountN("inuse-inner-replicas-driven", inner)
 		v.CountN("inuse-contributions-delivered", delivered)
 		v.Count("kind:in-use/" + kind)
 		v.Count(fmt.Sprintf("inuse-n:%02d", n))
-		v.Seen(fmt.Sprintf("inuse %v/%d/%d", ids, bf, rounds), fresh[ids[0]].th >= 3, map[string]any{"ids": c17uInts(ids), "bf": bf, "rounds": rounds, "inner_replicas": inner})
+		v.Seen(fmt.Sprintf("inuse %v/%d/%d", ids, bf, rounds), fresh[ids[0]].th >= 3, map[string]any{"ids": c17uInts(ids), "bf": bf, "rounds": rounds, "inner_replicas": inner, "childless_above_last_level": childlessHigh})
 		// re-evaluate everything on the used instances
 		used := map[hotstuff.ID]c17uAns{}
 		for _, x := range ids {
@@ -363,6 +538,8 @@ func TestVerifC17(t *testing.T) {
 			add(x, "QReplicaHeight "+gNat(a.rh))
 			add(x, "QTreeHeight "+gNat(a.th))
 			add(x, "QRoot "+gN(uint64(a.root)))
+			add(x, "QForwardsTo "+c17uIDs(first.forwarded[x]))
+			add(x, "QSendsAtOnce "+gBool(first.atOnce[x]))
 			ys := queries
 			if n > 10 { // the Go-side oracle covers every y; the kernel a rotating sample
 				ys = []hotstuff.ID{x, a.parent, ids[v.rng.Intn(n)], ids[v.rng.Intn(n)], ids[n-1], queries[len(queries)-1]}
@@ -397,6 +574,10 @@ func TestVerifC17(t *testing.T) {
 	}
 	// a hand-written assignment with unsorted sibling blocks on two levels
 	one("hand-written", []hotstuff.ID{1, 3, 2, 7, 6, 5, 4}, 2, 1)
+	// incomplete last levels with a childless replica on the second-to-last level
+	for _, c := range [][2]int{{4, 2}, {5, 2}, {10, 2}, {21, 3}, {6, 2}, {9, 3}, {11, 3}, {18, 4}} {
+		one("incomplete-level", randPerm(c[0]), c[1], 1)
+	}
 	// small trees: every bf
 	for n := 1; n <= 7; n++ {
 		for bf := 2; bf <= 6; bf++ {
@@ -410,7 +591,11 @@ func TestVerifC17(t *testing.T) {
 			bf := 2 + k%5
 			switch k % 4 {
 			case 0, 1:
-				one("shuffled", randPerm(n), bf, 1+k%2)
+				rounds := 1
+				if n <= 12 {
+					rounds = 1 + k%2
+				}
+				one("shuffled", randPerm(n), bf, rounds)
 			case 2:
 				one("descending", descending(n), bf, 1)
 			default:
